@@ -207,6 +207,7 @@ CHECKS = {
             rapid("concurrent", "^TestC12Concurrent$", 500, 2, timeout=150, shrinktime="5s"),
             rapid("crash", "^TestC12Crash$", 80, 2, timeout=150, shrinktime="5s"),
             rapid("tickbusy", "^TestC12TickBusy$", 300, 1, timeout=150, shrinktime="5s"),
+            rapid("faults", "^TestC12Faults$", 2000, 1, timeout=150, shrinktime="5s"),
         ],
         "thorough": [
             plain("regress", "^TestRegressC12"),
@@ -214,6 +215,7 @@ CHECKS = {
             rapid("concurrent-race", "^TestC12Concurrent$", 2500, 8, race=True, timeout=3000),
             rapid("crash", "^TestC12Crash$", 300, 10, timeout=3000),
             rapid("tickbusy", "^TestC12TickBusy$", 5000, 2, timeout=3000),
+            rapid("faults", "^TestC12Faults$", 60000, 4, timeout=3000),
         ],
     },
     "C13": {
